@@ -6,7 +6,7 @@
 From Coq Require Import NArith List.
 Import ListNotations.
 From CXV Require Import Gen.Blocks Parse.BlocksSM Parse.BlocksSpec Parse.BlocksThms.
-From CXV Require Import Gen.TokTy Parse.Declarator Parse.DeclSpec Parse.BaseClause.
+From CXV Require Import Gen.TokTy Parse.Declarator Parse.DeclSpec Parse.DeclThms Parse.BaseClause Parse.EnumList Parse.Specs Parse.Init Parse.Members.
 Open Scope N_scope.
 
 (* the access delivered with a member equals the backward-scan specification
@@ -14,7 +14,7 @@ Open Scope N_scope.
    then the most recent specifier of that body; nested classes before or
    around the member do not matter.  Any prefix, any nesting depth. *)
 Theorem access_in_force_partial :
-  forall (skip : N -> bool) (p : list ev) (c id acc : N),
+  forall (skip : N -> bool) (p : list BlocksSM.ev) (c id acc : N),
     sst (sfinal skip sinit p) = Running ->
     svis (sfinal skip sinit p) = true ->
     sem skip (sfinal skip sinit p) [EvItem c] = [CbItem c id acc] ->
@@ -31,6 +31,21 @@ Theorem base_clause_decodes_partial : forall default ws rest,
   bases (length ws) default [] (join_comma (map wbase_toks ws) ++ rest) = DOk (map (resolve default) ws, rest).
 Proof. exact base_clause_roundtrip. Qed.
 
+(* field statements in a class body: the flags of the specifiers written
+   (mutable, static, constexpr, inline; a field cannot be extern), one entry per
+   declarator with its own type on the shared base type, its bit-field width
+   and its initialiser (`= expr` or a brace group) exactly as written *)
+Theorem field_statement_decodes_partial : forall pre post b items rest,
+  forallb spec_kw pre = true -> forallb spec_kw post = true ->
+  has T_extern (pre ++ post) = false ->
+  items <> [] -> Forall (mitem_ok true false) items ->
+  let m := apply_kws (pre ++ post) mods0 in
+  DeclThms.ev (fun f => field_stmt (length items) f
+                 (kw_toks pre ++ nm_tok b :: kw_toks post ++ join_comma (map mitem_toks items) ++ ktok SEMI :: rest))
+     (DOk (m, map (mitem_out (TBase b (m_const m) (m_volatile m))) items, rest)).
+Proof. exact field_stmt_roundtrip. Qed.
+
+Print Assumptions field_statement_decodes_partial.
 Print Assumptions access_in_force_partial.
 Print Assumptions base_clause_decodes_partial.
 
